@@ -368,11 +368,16 @@ def _fake_select(rlist, wlist, xlist, timeout=None):
     if hook is not None:
         # continuous mode (harness/continuous.py): the loop is never left; the daemon's thread parks here between passes
         want = hook()
+        while want is None and timeout is None:
+            want = hook()        # nothing readable and no timeout asked for: select() does not return, there is no pass
     else:
         CTX.select_calls += 1
         if CTX.select_calls > 1:
             raise StopLoop()
         want = CTX.readable
+        if want is None and timeout is None:
+            # a pass that is due to the time-out of select() only: a daemon that asked for no time-out sleeps on
+            raise StopLoop()
     if want is None:
         return [], [], []
     wants = want if isinstance(want, list) else [want]     # a list: several sockets are readable in the same pass
